@@ -73,7 +73,8 @@ Definition prop (ex : expect) (o : observed) : bool * bool :=
       (true, match o with ObsOk b bs => (b =? 512) && list_eqb Z.eqb bs bytes | _ => false end)
   end.
 
-Definition judge (c : list stmt * expect * observed) : N :=
+Definition case := (list stmt * expect * observed)%type.
+Definition judge (c : case) : N :=
   let '(p, ex, o) := c in
   let '(consistent, holds) := prop ex o in
   (code_of (corr p o) holds + (if consistent then 0 else 4))%N.
